@@ -103,6 +103,12 @@ def p10_accept_loop(ctx):
     starts = [e[1] for e in ok_e] if ok_e else nxt
     p3 = path_to(b, starts, lambda x: x == abb, blocked_edges=lambda e: e.kind in ("unwind", "ydrop") or (e.src == sbb and e.kind == "ret"))
     r.add(f, "every accepted connection reaches tokio::spawn before the next iteration", p3 is None, where(b, sbb), "" if p3 is None else "an accepted connection (and its permit) can be dropped without a handler task", describe_path(b, p3) if p3 else None)
+    # accepted sockets keep the default close behaviour: SO_LINGER 0 turns the server-side close into a reset that discards queued reply bytes
+    for x in shipped_bodies(prog):
+        if not x.name.startswith("net::"):
+            continue
+        for _, bb2, t2 in calls_in([x], "tokio::net::TcpStream::set_linger", "tokio::net::TcpSocket::set_linger", "socket2::Socket::set_linger", "std::net::TcpStream::set_linger"):
+            r.bad(fam_name(x), "set_linger on a connection", where(x, bb2), "with a zero linger time close() sends RST and drops what is still in the send queue: a client reading a large reply at shutdown gets a torn reply / ECONNRESET instead of complete replies and end-of-stream")
     # listen() returns Err only when accept() gave up: nothing that concerns a single connection may end the accept loop
     aok, aerr, _sw = try_edges_awaited(b, cbb)
     classes_wo = {c for c, d, rb in ret_classes(b, 0, lambda e: e.kind in ("unwind", "ydrop") or (e.src, e.dst) in aerr)}
